@@ -186,10 +186,11 @@ class applied_config(object):
 _IN_FORK = [False]
 
 
-def _run_in_fork(mod, case, allowance):
+def _run_in_fork(mod, case, allowance, prelude=None):
     """The case runs in a forked child of this process (petl imported before
     the fork, as under multiprocessing's fork start method); the outcome comes
-    back through a pipe."""
+    back through a pipe.  `prelude`: cases run in the child first, in order
+    (state that the code under test carries from one use to the next)."""
     import pickle
     r, w = os.pipe()
     pid = os.fork()
@@ -198,6 +199,8 @@ def _run_in_fork(mod, case, allowance):
         try:
             os.close(r)
             _IN_FORK[0] = True
+            for c in prelude or ():
+                run_guarded(mod, c, allowance)
             out = run_guarded(mod, case, allowance)
             with os.fdopen(w, 'wb') as f:
                 f.write(pickle.dumps(out))
@@ -498,6 +501,56 @@ def minimise(mod, case, ref, budget_s=20.0):
     return best, best_out, accepted
 
 
+def find_prelude(mod, tier, seed, nworkers, case, ref, budget_s=20.0):
+    """The cases that the worker which ran `case` had run before it, cut
+    down to a short list after which `case` still fails the same way in a
+    fresh child.  Returns (list, outcome) or (None, None)."""
+    from .loader import load_petl
+    load_petl()
+    t0 = time.time()
+    g = case.get('g')
+    if g is None:
+        return None, None
+    earlier = []
+    for g2 in range(g % nworkers, g, nworkers):
+        c = mod.gen_case(case_rng(seed, mod.PROP, g2), tier, g2)
+        c['g'] = g2
+        if c.get('forked') or c.get('interp_env') or c.get('exit'):
+            continue                # ran in a child of its own
+        earlier.append(c)
+
+    def fails(pre):
+        try:
+            out = _run_in_fork(mod, case, 30, prelude=pre)
+        except Exception:
+            return None
+        return out if same_violation(out, ref) else None
+
+    best, best_out = None, None
+    k = 1
+    while True:
+        pre = earlier[-k:]
+        out = fails(pre)
+        if out is not None:
+            best, best_out = pre, out
+            break
+        if k >= len(earlier):
+            return None, None
+        k *= 2
+    progress = True
+    while progress and len(best) > 1 and time.time() - t0 < budget_s:
+        progress = False
+        for cand in ddmin_lists(best):
+            if time.time() - t0 > budget_s:
+                break
+            out = fails(cand)
+            if out is not None:
+                best, best_out = cand, out
+                progress = True
+                break
+    return best, best_out
+
+
 def ddmin_lists(lst):
     """Candidates of a list with chunks removed, big chunks first."""
     n = len(lst)
@@ -511,7 +564,7 @@ def ddmin_lists(lst):
 # ---------------------------------------------------------------------------
 # reporting
 
-def write_replay(prop, seed, case, out, original=None, tag=''):
+def write_replay(prop, seed, case, out, original=None, tag='', prelude=None):
     d = os.path.join(VERIF, 'replays')
     os.makedirs(d, exist_ok=True)
     name = '%s-%d-%s%s.json' % (
@@ -523,7 +576,8 @@ def write_replay(prop, seed, case, out, original=None, tag=''):
         json.dump({'property': prop, 'seed': seed, 'case': case,
                    'vclass': out['vclass'], 'msg': out['msg'],
                    'sig': out['sig'], 'digest': out['digest'],
-                   'original_case': original}, f, indent=1, sort_keys=True)
+                   'original_case': original, 'prelude': prelude or None},
+                  f, indent=1, sort_keys=True)
     return path
 
 
@@ -531,7 +585,14 @@ def replay(mod, path):
     with open(path) as f:
         rep = json.load(f)
     case = rep['case']
-    out = run_guarded(mod, case, allowance=120)
+    if rep.get('prelude'):
+        from .loader import load_petl
+        load_petl()
+        out = _run_in_fork(mod, case, 120, prelude=rep['prelude'])
+        print('  (after %d earlier cases in the same process)'
+              % len(rep['prelude']))
+    else:
+        out = run_guarded(mod, case, allowance=120)
     print('REPLAY property=%s file=%s' % (mod.PROP, path))
     print('  recorded: %s :: %s' % (rep.get('vclass'), rep.get('msg')))
     print('  now     : %s :: %s :: %s' % (out['status'], out['vclass'],
@@ -615,9 +676,11 @@ def run_check(modname, tier, seed, workers=None, cases=None):
     # triage: one representative per signature
     findings = load_findings()
     by_sig = {}
+    cands = {}
     for case, out in sorted(violations, key=lambda co: co[0].get('g', 0)):
         s = json.dumps(out['sig'], sort_keys=True)
         by_sig.setdefault(s, (case, out))
+        cands.setdefault(s, []).append((case, out))
     known_printed = {}
     new = []
     shrink_budget = float(os.environ.get(
@@ -638,15 +701,40 @@ def run_check(modname, tier, seed, workers=None, cases=None):
     t_shr = time.time()
     for case, out, s in new[:8]:
         left = max(3.0, shrink_budget - (time.time() - t_shr))
-        small, small_out, nacc = minimise(mod, case, out, budget_s=left)
+        # the representative must fail on its own, in a fresh child of this
+        # process (which has run no case); if none of the class does, the
+        # violation needs what earlier cases left behind in the code under
+        # test: the replay then holds those cases as well
+        prelude = None
+        for c2, o2 in cands.get(s, [])[:6]:
+            try:
+                alone = run_isolated(mod, c2, allowance=30)
+            except Exception:
+                continue
+            if same_violation(alone, o2):
+                case, out = c2, alone
+                break
+        else:
+            prelude, pout = find_prelude(mod, tier, seed, nworkers, case,
+                                         out, budget_s=max(left, 15.0))
+            if prelude is not None:
+                out = pout
+        if prelude is None:
+            small, small_out, nacc = minimise(mod, case, out, budget_s=left)
+        else:
+            small, small_out, nacc = case, out, 0
         # a minimised case may itself fall under a known finding
         f = match_finding(prop, small_out['sig'], findings)
         if f is not None:
             continue
-        path = write_replay(prop, seed, small, small_out, original=case)
+        path = write_replay(prop, seed, small, small_out, original=case,
+                            prelude=prelude)
         print('VIOLATION property=%s replay=%s' % (prop, path))
         print('  class=%s sig=%s (%d cases this run, minimised in %d steps)'
               % (small_out['vclass'], s, sig_counts.get(s, 1), nacc))
+        if prelude:
+            print('  (only after %d earlier cases in the same process: state '
+                  'is carried from one use to the next)' % len(prelude))
         print('  %s' % (small_out['msg'],))
         reported += 1
         rc = 1
